@@ -5,19 +5,19 @@ CONSTANTS
   Versions = {20}
   ObjUuids = {101, 102}
   SvcUuids = {201}
-  Events = {0}
+  Events = {0, 1}
   Fns = {0}
   CSerials = {0}
   Payloads = {1}
   TypeIds = {301}
   Caps <- CapsOne
-  MaxCookie = 4
+  MaxCookie = 3
   InqBound = 1
-  Kinds = {"CreateObject", "DestroyObject", "CreateService", "CreateService2", "DestroyService", "QueryServiceVersion", "QueryServiceInfo", "Sync"}
-  Faults = {"ends", "dropped", "sdb", "sdi"}
+  Kinds = {"SubscribeEvent", "UnsubscribeEvent", "EmitEvent", "SubscribeService", "UnsubscribeService", "SubscribeAllEvents", "UnsubscribeAllEvents", "DestroyService"}
+  Faults = {"ends", "dropped"}
   WrongKinds = {}
   MsgBudget = 4
-  ScriptSel = "none"
+  ScriptSel = "svc"
   V0 = 20
   V1 = 20
 VIEW view
